@@ -844,6 +844,13 @@ func runC12(args []string) error {
 	for _, in := range c12MultiBoundary() {
 		c12Run(co, "multi", "unwind", in)
 	}
+	// the limits through every context-pushing entry point
+	for _, in := range c12DepthPrograms(n >= 1000) {
+		c12Run(co, "multi", "depth", in)
+	}
+	for _, in := range c12OtherLimits() {
+		c12Run(co, "multi", "limits", in)
+	}
 	for i := 0; i < n/3; i++ {
 		c12Run(co, "multi", "gen", c12GenMulti(r))
 	}
